@@ -45,7 +45,10 @@
 #define PERIODIC 0
 #endif
 
-using RealType = double;
+#ifndef COREREAL
+#define COREREAL double
+#endif
+using RealType = COREREAL;      // coordinate type of the executors' configuration matrix (C19)
 constexpr long int Dim = DIM;
 using Config = TbfSpacialConfiguration<RealType, Dim>;
 using SpaceIndex = TbfMortonSpaceIndex<Dim, Config, (PERIODIC != 0)>;
@@ -388,8 +391,14 @@ int main(){
             dumpValues(*cs.tree);
         }
         else if(op == "exec" && ts.size() > 1 && ts[1] == "seq"){
-            std::unique_ptr<TbfAlgorithm<RealType, Kernel, SpaceIndex>> algo(
-                new TbfAlgorithm<RealType, Kernel, SpaceIndex>(*cs.config, kv(ts, "upper", 2)));
+            // ctor=1: built from (configuration, kernel) with the default upper level; ctor=2: from the configuration alone;
+            // ctor=3: (configuration, kernel, upper); otherwise (configuration, upper).  With ctor=1/2 the case states upper=2 (the documented default)
+            const long ctor = kv(ts, "ctor", 0);
+            std::unique_ptr<TbfAlgorithm<RealType, Kernel, SpaceIndex>> algo;
+            if(ctor == 1){ std::unique_ptr<Kernel> k(new Kernel(*cs.config)); algo.reset(new TbfAlgorithm<RealType, Kernel, SpaceIndex>(*cs.config, *k)); }
+            else if(ctor == 2) algo.reset(new TbfAlgorithm<RealType, Kernel, SpaceIndex>(*cs.config));
+            else if(ctor == 3){ std::unique_ptr<Kernel> k(new Kernel(*cs.config)); algo.reset(new TbfAlgorithm<RealType, Kernel, SpaceIndex>(*cs.config, *k, kv(ts, "upper", 2))); }
+            else algo.reset(new TbfAlgorithm<RealType, Kernel, SpaceIndex>(*cs.config, kv(ts, "upper", 2)));
             algo->execute(*cs.tree, int(kv(ts, "flags", 63)));
             flushLog();
         }
@@ -401,8 +410,12 @@ int main(){
             // number allowed when execute() runs: an executor reused after omp_set_num_threads)
             MockConfig mcc = mc; mcc.nworkers = int(kv(ts, "cworkers", mc.nworkers));
             mock_gomp_configure(mcc);
-            std::unique_ptr<TbfOpenmpAlgorithm<RealType, Kernel, SpaceIndex>> algo(
-                new TbfOpenmpAlgorithm<RealType, Kernel, SpaceIndex>(*cs.config, kv(ts, "upper", 2)));
+            const long ctor = kv(ts, "ctor", 0);
+            std::unique_ptr<TbfOpenmpAlgorithm<RealType, Kernel, SpaceIndex>> algo;
+            if(ctor == 1){ std::unique_ptr<Kernel> k(new Kernel(*cs.config)); algo.reset(new TbfOpenmpAlgorithm<RealType, Kernel, SpaceIndex>(*cs.config, *k)); }
+            else if(ctor == 2) algo.reset(new TbfOpenmpAlgorithm<RealType, Kernel, SpaceIndex>(*cs.config));
+            else if(ctor == 3){ std::unique_ptr<Kernel> k(new Kernel(*cs.config)); algo.reset(new TbfOpenmpAlgorithm<RealType, Kernel, SpaceIndex>(*cs.config, *k, kv(ts, "upper", 2))); }
+            else algo.reset(new TbfOpenmpAlgorithm<RealType, Kernel, SpaceIndex>(*cs.config, kv(ts, "upper", 2)));
             mock_gomp_configure(mc);
             mock_gomp_clear_history();
             algo->execute(*cs.tree, int(kv(ts, "flags", 63)));
